@@ -153,7 +153,12 @@ def run_pad(ck, n_cases, alias):
     cases, impl, exprs = [], [], []
     for _ in range(n_cases):
         c = gen_pad_case(ck.rng, ck.tier)
-        r = run_pad_impl(c)
+        try:
+            r = run_pad_impl(c)
+        except Exception as e:
+            ck.violation("C13/pad_restricted/exception/%s" % type(e).__name__, "padding a generated case raised %r (occ=%s frozen=%s)" % (e, c["occ"], c["frozen"]),
+                         {"kind": "pad", "case": c}, found_input=True)
+            continue
         if r is None:
             ck.case("padding", json.dumps(c, sort_keys=True), nontrivial=False, tags=["molecule-rejected"])
             continue
@@ -185,7 +190,12 @@ def run_pad(ck, n_cases, alias):
         exprs.append("c13_pad %s pad_r_in_axes pad_r_out_axes %d %d %d %s %s %s" % (
             "true" if alias else "false", c["n"], r["nocc"], r["nocc"] - r["nfo"], CC.coq_nats(r["A"]),
             CC.coq_znest(r["d1_0"]), CC.coq_znest(r["d2_0"])))
-    model = ck.coq_eval("pad", PREAMBLE, exprs, shard=10)
+    try:
+        model = ck.coq_eval("pad", PREAMBLE, exprs, shard=10)
+    except Exception as e:
+        ck.violation("C13/correspondence/pad_restricted/model-evaluation", "the Coq model could not be evaluated: %s" % str(e)[-600:],
+                     {"kind": "model-eval"}, found_input=False)
+        return
     for c, a, b in zip(cases, impl, model):
         if a != b:
             pa, pb = a.split(" | "), b.split(" | ")
@@ -283,22 +293,33 @@ def op_expectation(qop, sv, nq, msb_first, cache):
     return complex(tot)
 
 
-def gen_vqe_case(rng, tier):
-    nact = 2 if rng.random() < (0.8 if tier == "quick" else 0.6) else 3
+def gen_vqe_case(rng, tier, shell=None):
+    """shell: closed | doublet | triplet | quartet (spin 0, 1, 2, 3; ROHF-like occupations 2..2 1..1 0..0).
+    Triplets and quartets matter for scBK: the encoding depends on spin//2."""
+    shell = shell or rng.choice(["closed", "closed", "closed", "doublet", "triplet", "triplet", "quartet"])
+    ns = {"closed": 0, "doublet": 1, "triplet": 2, "quartet": 3}[shell]
+    if ns >= 2:
+        nact = 3
+    elif ns == 1:
+        nact = rng.choice([2, 3])
+    else:
+        nact = 2 if rng.random() < (0.8 if tier == "quick" else 0.6) else 3
+    nd_max = nact - ns - (0 if ns else 1)          # closed shells keep one virtual
+    nd_act = rng.randint(0 if ns else 1, max(0 if ns else 1, nd_max))
+    if ns == 0 and nd_act >= nact:
+        nd_act = nact - 1
     nfro = rng.randint(0, 1)
     n = nact + nfro + (1 if rng.random() < 0.3 else 0)      # possibly one frozen virtual
-    nd_act = rng.randint(1, nact - 1)
-    ns = 1 if (nact - nd_act >= 2 and rng.random() < 0.2) else 0
     occ = [2] * (nfro + nd_act) + [1] * ns + [0] * (n - nfro - nd_act - ns)
     frozen = list(range(nfro)) + ([n - 1] if n > nact + nfro else [])
-    mapping = rng.choice(["jw", "jw", "bk", "scbk", "jkmn"])
+    mapping = rng.choice(["jw", "bk", "scbk", "scbk", "jkmn"])
     utd = rng.random() < 0.5
     if mapping == "scbk":
         utd = True
     sym = rng.random() < 0.8
-    return {"n": n, "occ": occ, "spin": ns, "frozen": frozen, "mapping": mapping, "utd": utd, "core": rng.randint(-2, 2),
+    return {"n": n, "occ": occ, "spin": ns, "shell": shell, "frozen": frozen, "mapping": mapping, "utd": utd, "core": rng.randint(-2, 2),
             "h": CC.rand_h(rng, n, sym).astype(int).tolist(), "eri": CC.rand_eri(rng, n, sym).astype(int).tolist(), "sym": sym,
-            "circ_seed": rng.randrange(1 << 30), "style": rng.choice(["stabilizer", "stabilizer", "stabilizer", "angles"])}
+            "circ_seed": rng.randrange(1 << 30), "style": rng.choice(["stabilizer", "stabilizer", "stabilizer", "angles", "reference"])}
 
 
 def build_circuit(c, nq):
@@ -307,6 +328,10 @@ def build_circuit(c, nq):
     import random
     from tangelo.linq import Circuit, Gate
     r = random.Random(c["circ_seed"])
+    if c["style"] == "reference":
+        # the encoded reference determinant with variational gates at parameter zero ("every parameter vector including zeros")
+        gates = list(c["_ref_gates"]) + [Gate("RY", q, parameter=0.1, is_variational=True) for q in range(nq)]
+        return Circuit(gates, n_qubits=nq), [0.0] * nq
     gates = [Gate("X", q) for q in range(nq) if r.random() < 0.5]
     params = []
     for _ in range(r.randint(2, 9)):
@@ -341,6 +366,10 @@ def run_vqe_case(c):
         return None
     nso = mol.n_active_sos
     nq = get_qubit_number(c["mapping"], nso)
+    if c["style"] == "reference":
+        from tangelo.toolboxes.qubit_mappings.statevector_mapping import get_reference_circuit
+        c = dict(c)
+        c["_ref_gates"] = list(get_reference_circuit(nso, mol.n_active_electrons, c["mapping"], c["utd"], mol.active_spin))
     circ, params = build_circuit(c, nq)
     v = VQESolver({"molecule": mol, "ansatz": circ, "qubit_mapping": c["mapping"], "up_then_down": c["utd"]})
     v.build()
@@ -405,6 +434,12 @@ def vqe_oracles(ck, c, r):
             if abs(np.trace(a) - r["n_mean"]) > tol:
                 ck.violation("C13/get_rdm/trace/%s/%s" % (nm, tag), "state conserves the electron number (<N> = %.6f, variance 0) but the %s 1-RDM "
                              "traces to %s" % (r["n_mean"], nm, np.trace(a)), rep, found_input=True)
+    if c["style"] == "reference" and all_num:
+        ne = r["mol"].n_active_electrons
+        for nm, a in (("spin-resolved", r["r1s"]), ("spin-summed", r["r1"])):
+            if abs(np.trace(a) - ne) > tol:
+                ck.violation("C13/get_rdm/trace-reference/%s/%s/%s" % (nm, tag, c.get("shell", "")), "reference determinant with %d active electrons: the %s "
+                             "1-RDM traces to %s" % (ne, nm, np.trace(a)), rep, found_input=True)
     if not r["inputs_kept"]:
         ck.violation("C13/energy_from_rdms/inputs-mutated", "SecondQuantizedMolecule.energy_from_rdms changed the arrays passed in", rep, found_input=True)
 
@@ -413,10 +448,20 @@ def run_vqe(ck, n_cases):
     ck.stream("get_rdm", "VQESolver.get_rdm on stub molecules (2-3 active orbitals, optional frozen core / frozen virtual, closed and "
               "open shell), encodings JW/BK/scBK/JKMN, both orderings, random Clifford+RY circuits; 'stabilizer' style: all term "
               "expectation values dyadic -> exact comparison with the Coq model; 'angles': oracle only; "
-              "non-trivial = state is not a single determinant (some |term expectation| strictly between 0 and 1)")
+              "triplet and quartet ROHF occupations (spin 2, 3: the scBK sector with odd spin//2) always included, with the encoded reference "
+              "determinant at zero parameters and with stabiliser states; non-trivial = state is not a single determinant or open shell with spin >= 2")
     exprs, meta = [], []
-    for _ in range(n_cases):
-        c = gen_vqe_case(ck.rng, ck.tier)
+    forced = []
+    for shell in ("triplet", "quartet"):          # always present, whatever the seed
+        for mapping, utd in (("scbk", True), ("bk", False), ("jw", True), ("jkmn", False)):
+            for style in ("reference", "stabilizer"):
+                c = gen_vqe_case(ck.rng, ck.tier, shell)
+                c.update({"mapping": mapping, "utd": utd, "style": style, "sym": True})
+                c["h"] = (CC.rand_h(ck.rng, c["n"], True) + 5 * np.eye(c["n"])).astype(int).tolist()   # h_PP != 0
+                c["eri"] = CC.rand_eri(ck.rng, c["n"], True).astype(int).tolist()
+                forced.append(c)
+    for k in range(n_cases):
+        c = forced[k] if k < len(forced) else gen_vqe_case(ck.rng, ck.tier)
         try:
             r = run_vqe_case(c)
         except Exception as e:      # the solver itself failed: report with the case
@@ -425,14 +470,15 @@ def run_vqe(ck, n_cases):
         if r is None:
             ck.case("get_rdm", json.dumps(c, sort_keys=True), nontrivial=False, tags=["molecule-rejected"])
             continue
-        nontrivial = any(1e-6 < abs(x) < 1 - 1e-6 for x in r["evs"].values())
+        nontrivial = any(1e-6 < abs(x) < 1 - 1e-6 for x in r["evs"].values()) or c.get("shell") in ("triplet", "quartet")
         ck.case("get_rdm", json.dumps(c, sort_keys=True), nontrivial=nontrivial,
                 sample={"occ": c["occ"], "frozen": c["frozen"], "mapping": c["mapping"], "up_then_down": c["utd"], "style": c["style"],
                         "terms": r["n_terms"], "e_rdm": r["e_rdm"], "e_direct": r["e_direct"], "trace": float(np.trace(r["r1"]).real)},
                 tags=[c["mapping"], "utd" if c["utd"] else "alt", c["style"], "nact=%d" % (r["nso"] // 2),
-                      "N-conserving" if abs(r["n_var"]) < 1e-9 else "N-mixing", "open" if c["spin"] else "closed"])
+                      "N-conserving" if abs(r["n_var"]) < 1e-9 else "N-mixing", c.get("shell", "closed"),
+                      "scbk-odd-spin-half" if (c["mapping"] == "scbk" and (c["spin"] // 2) % 2 == 1) else "other-sector"])
         vqe_oracles(ck, c, r)
-        if c["style"] != "stabilizer":
+        if c["style"] not in ("stabilizer", "reference"):
             continue
         # ---- exact comparison with the model, real and imaginary parts separately
         nso = r["nso"]
@@ -479,7 +525,12 @@ def run_vqe(ck, n_cases):
                 nso, int(core), coq_qnest(to_frac_nested(r["h1"])), coq_qnest(to_frac_nested(r["g1"])), ts_cq,
                 coq_qnest(dense[part][0]), coq_qnest(dense[part][1])))
             meta.append((c, part, impl, e))
-    model = ck.coq_eval("rdm", PREAMBLE, exprs, shard=6)
+    try:
+        model = ck.coq_eval("rdm", PREAMBLE, exprs, shard=6)
+    except Exception as e:
+        ck.violation("C13/correspondence/get_rdm/model-evaluation", "the Coq model could not be evaluated: %s" % str(e)[-600:],
+                     {"kind": "model-eval"}, found_input=False)
+        return
     for (c, part, impl, e), b in zip(meta, model):
         bm, be = b.rsplit(" | e=", 1)
         if impl != bm:
@@ -552,6 +603,69 @@ def run_pyscf_support(ck):
                 ck.violation("C13/pyscf/%s/hermiticity" % sname, "%s: 1-RDM not Hermitian" % name, rep, found_input=True)
 
 
+def run_pyscf_get_rdm(ck):
+    """SUPPORT on real molecules: VQESolver.get_rdm in the encoded reference state (all variational parameters zero) of
+    triplet / quartet / doublet / singlet ROHF molecules: energy_from_rdms == mean-field energy == <psi|H|psi>,
+    trace == active electrons, Hermiticity; every encoding, both orderings."""
+    from tangelo.toolboxes.molecular_computation.molecule import SecondQuantizedMolecule
+    ck.stream("pyscf-get_rdm", "SUPPORT (numerical): real PySCF ROHF molecules (H4 triplet, H3 quartet, H4+ quartet, H3 doublet, H2) sto-3g, "
+              "VQESolver.get_rdm in the encoded reference state with zero parameters, JW/BK/scBK/JKMN; energy vs mean-field energy "
+              "(1e-7), trace vs active electrons, Hermiticity; non-trivial = spin >= 2")
+    def chain(n, d):
+        return [("H", (0., 0., d * i)) for i in range(n)]
+    mols = [("H4-triplet", chain(4, 0.9), 0, 2, None), ("H3-quartet", chain(3, 1.0), 0, 3, None), ("H2-singlet", chain(2, 0.8), 0, 0, None)]
+    if ck.tier == "thorough":
+        mols += [("H4+-quartet", chain(4, 1.0), 1, 3, None), ("H3-doublet", chain(3, 0.95), 0, 1, None),
+                 ("H4-triplet-frozen[0]", chain(4, 0.85), 0, 2, [0]), ("H4-singlet-frozen[3]", chain(4, 0.9), 0, 0, [3])]
+    maps = [("scbk", True), ("jw", False)] if ck.tier == "quick" else \
+           [("scbk", True), ("jw", False), ("jw", True), ("bk", False), ("bk", True), ("jkmn", False), ("jkmn", True)]
+    for name, xyz, q, spin, fr in mols:
+        try:
+            mol = SecondQuantizedMolecule(xyz, q, spin, basis="sto-3g", frozen_orbitals=fr)
+        except Exception as e:
+            ck.notes.setdefault("pyscf_build_failures", []).append("%s: %r" % (name, e))
+            continue
+        if not getattr(mol.mean_field, "converged", True):
+            ck.notes.setdefault("pyscf_unconverged", []).append(name)
+            continue
+        for mapping, utd in maps:
+            case = {"molecule": name, "xyz": [[a, list(x)] for a, x in xyz], "q": q, "spin": spin, "frozen": fr, "mapping": mapping, "utd": utd}
+            ck.case("pyscf-get_rdm", json.dumps(case), nontrivial=spin >= 2, sample=case, tags=[mapping, "spin=%d" % spin])
+            try:
+                r = real_get_rdm(mol, mapping, utd)
+            except Exception as e:
+                ck.violation("C13/pyscf/get_rdm/crash/%s/spin%d" % (mapping, spin), "%s: get_rdm raised %r" % (name, e),
+                             {"kind": "pyscf-get_rdm", "case": case}, found_input=True)
+                continue
+            rep = {"kind": "pyscf-get_rdm", "case": case}
+            if abs(r["e_rdm"] - mol.mf_energy) > 1e-7 or abs(r["e_est"] - mol.mf_energy) > 1e-7:
+                ck.violation("C13/pyscf/get_rdm/energy/%s/spin%d" % (mapping, spin), "%s: reference state: energy_from_rdms(get_rdm(0)) = %.9f, "
+                             "energy_estimation(0) = %.9f, mean-field energy %.9f" % (name, r["e_rdm"], r["e_est"], mol.mf_energy), rep, found_input=True)
+            if abs(r["trace"] - mol.n_active_electrons) > 1e-7:
+                ck.violation("C13/pyscf/get_rdm/trace/%s/spin%d" % (mapping, spin), "%s: reference state with %d active electrons: 1-RDM traces to %.6f"
+                             % (name, mol.n_active_electrons, r["trace"]), rep, found_input=True)
+            if r["herm"] > 1e-7:
+                ck.violation("C13/pyscf/get_rdm/hermiticity/%s/spin%d" % (mapping, spin), "%s: RDMs not Hermitian (%.2e)" % (name, r["herm"]), rep, found_input=True)
+
+
+def real_get_rdm(mol, mapping, utd):
+    from tangelo.algorithms.variational import VQESolver
+    from tangelo.linq import Circuit, Gate
+    from tangelo.toolboxes.qubit_mappings.mapping_transform import get_qubit_number
+    from tangelo.toolboxes.qubit_mappings.statevector_mapping import get_reference_circuit
+    nso = mol.n_active_sos
+    nq = get_qubit_number(mapping, nso)
+    ref = list(get_reference_circuit(nso, mol.n_active_electrons, mapping, utd, mol.active_spin))
+    circ = Circuit(ref + [Gate("RY", q, parameter=0.1, is_variational=True) for q in range(nq)], n_qubits=nq)
+    v = VQESolver({"molecule": mol, "ansatz": circ, "qubit_mapping": mapping, "up_then_down": utd})
+    v.build()
+    zeros = [0.0] * nq
+    r1, r2 = v.get_rdm(zeros)
+    r1, r2 = np.array(r1), np.array(r2)
+    herm = max(np.abs(r1 - r1.conj().T).max(), np.abs(r2 - r2.conj().transpose(1, 0, 3, 2)).max())
+    return {"e_rdm": mol.energy_from_rdms(r1, r2), "e_est": v.energy_estimation(zeros), "trace": float(np.trace(r1).real), "herm": float(herm)}
+
+
 # ------------------------------------------------------------------------------------------ main
 def run(ck):
     from translator import chem_tables
@@ -568,16 +682,21 @@ def run(ck):
                       "padding: occupied orbitals are the first n_occ orbitals (aufbau order, as every supported mean-field produces); "
                       "non-aufbau stub occupations are counted in notes, not reported",
                       "PySCF solvers' density matrices are external: numerical support only"]
+    fallback = False
     try:
         t = chem_tables.extract(REPO)
-        ck.write_gen("ChemTables", chem_tables.emit(t))
     except TranslateError as e:
         ck.violation("C13/translator/chem_tables", "translator no longer recognises the source: %s" % e,
                      {"kind": "translator", "error": str(e)}, found_input=False)
-        return
-    res = ck.prove()
-    if not res.ok:
-        ck.proof_violation(res)
+        t, fallback = chem_tables.FALLBACK, True
+    ck.notes["tables"] = "FALLBACK last-known-good constants (translator failed; reported)" if fallback else "regenerated from /repo"
+    ck.write_gen("ChemTables", chem_tables.emit(t))
+    try:
+        res = ck.prove()
+        if not res.ok:
+            ck.proof_violation(res, "(against FALLBACK tables)" if fallback else "")
+    except Exception as e:
+        ck.violation("C13/proof/build", "the proof step could not be run: %s" % str(e)[-600:], {"kind": "proof"}, found_input=False)
     try:
         import tangelo.toolboxes.molecular_computation.rdms  # noqa
         import tangelo.algorithms.variational  # noqa
@@ -585,18 +704,29 @@ def run(ck):
         ck.violation("C13/import", "tangelo cannot be imported: %r" % e, {"kind": "import"}, found_input=False)
         return
     import time as _t
-    t0 = _t.time()
-    alias = pad_witness(ck)
-    ck.notes["pad_model_variant"] = "as-is (view updated in place)" if alias else "repaired (copy)"
+    import traceback
     quick = ck.tier == "quick"
-    run_pad(ck, 110 if quick else 1500, alias)
-    t1 = _t.time()
-    run_pad_unrestricted(ck, 30 if quick else 400)
-    t2 = _t.time()
-    run_vqe(ck, 60 if quick else 600)
-    t3 = _t.time()
-    run_pyscf_support(ck)
-    ck.notes["stage_seconds"] = {"pad": round(t1 - t0, 1), "pad_uhf": round(t2 - t1, 1), "get_rdm": round(t3 - t2, 1), "pyscf": round(_t.time() - t3, 1)}
+    alias = [False]
+
+    def _witness():
+        alias[0] = pad_witness(ck)
+        ck.notes["pad_model_variant"] = "as-is (view updated in place)" if alias[0] else "repaired (copy)"
+    stages = {}
+    for name, fn in (("pad-witness", _witness),
+                     ("padding", lambda: run_pad(ck, 110 if quick else 1500, alias[0])),
+                     ("padding-uhf", lambda: run_pad_unrestricted(ck, 30 if quick else 400)),
+                     ("get_rdm", lambda: run_vqe(ck, 64 if quick else 450)),
+                     ("pyscf-get_rdm", lambda: run_pyscf_get_rdm(ck)),
+                     ("pyscf-support", lambda: run_pyscf_support(ck))):
+        t0 = _t.time()
+        try:
+            fn()
+        except Exception:
+            tb = traceback.format_exc()
+            ck.violation("C13/stream/%s/aborted" % name, "stream %s stopped early: %s" % (name, tb.splitlines()[-1]),
+                         {"kind": "stream-abort", "traceback": tb}, found_input=False)
+        stages[name] = round(_t.time() - t0, 1)
+    ck.notes["stage_seconds"] = stages
     ck.notes["theorem_status"] = {
         "full": ["C13_energy_contraction", "C13_spin_sum_loops", "C13_energy_contraction_spin_resolved", "C13_unmeasured_zero_terms",
                  "C13_rdm_hermitian", "C13_rdm1_trace", "C13_rdm1_trace_spin_summed", "C13_pad_restricted_trace",
@@ -625,6 +755,14 @@ def replay(data):
         bad = changed > 0
         if c.get("aufbau", True) and c.get("sym", True):
             bad = bad or res["e_act"] != res["e_full"]
+        return 1 if bad else 0
+    if r.get("kind") == "pyscf-get_rdm":
+        from tangelo.toolboxes.molecular_computation.molecule import SecondQuantizedMolecule
+        c = r["case"]
+        mol = SecondQuantizedMolecule([(a, tuple(x)) for a, x in c["xyz"]], c["q"], c["spin"], basis="sto-3g", frozen_orbitals=c["frozen"])
+        res = real_get_rdm(mol, c["mapping"], c["utd"])
+        print("mean-field energy", mol.mf_energy, res, "active electrons", mol.n_active_electrons)
+        bad = abs(res["e_rdm"] - mol.mf_energy) > 1e-7 or abs(res["trace"] - mol.n_active_electrons) > 1e-7 or res["herm"] > 1e-7
         return 1 if bad else 0
     if r.get("kind") == "vqe":
         c = r["case"]
